@@ -1,5 +1,6 @@
 import FlexModel.Proto
 import FlexModel.Fac.Denm
+import FlexModel.Fac.DenmRep
 namespace FlexModel.Fac.Denm
 open FlexModel.Proto
 
@@ -40,8 +41,40 @@ def faultFn (l : List (Nat × Fault)) (k : Nat) : Fault :=
   | some p => p.2
   | none => .ok
 
+/-- events of the `reps` op: groups of four tokens `seq lat lon reps` -/
+def repEvents (station : Nat) : List String → Option (List Rep.Event)
+  | [] => some []
+  | sq :: lat :: lon :: n :: r =>
+    match nat? sq, int? lat, int? lon, nat? n, repEvents station r with
+    | some sq, some lat, some lon, some n, some es => some (⟨station, sq, ⟨lat, lon⟩, n⟩ :: es)
+    | _, _, _, _, _ => none
+  | _ => none
+
+/-- schedule of the `reps` op: `rr<rounds>` (round robin) or a comma-separated list of thread ids -/
+def repSched (n : Nat) (tok : String) : Option (List Nat) :=
+  match tok.toList with
+  | 'r' :: 'r' :: cs => (nat? (String.ofList cs)).map (Rep.roundRobin n)
+  | _ => (tok.splitOn ",").mapM nat?
+
 def denmStep (s : DState) (t : List String) : DState × String :=
   match t with
+  | "reps" :: scope :: station :: sched :: evs =>
+    -- overlapping events at the level of the accesses of the repetition body (FlexModel/Fac/DenmRep.lean):
+    -- scope `src` (as the regenerated facts say) / `local` / `shared`; prints every hand-over in order
+    match (match scope with | "src" => some Rep.sourceScope | "local" => some Rep.Scope.perRepetition
+                            | "shared" => some Rep.Scope.shared | _ => none), nat? station with
+    | some sc, some station =>
+      match repEvents station evs with
+      | some es =>
+        match repSched es.length sched with
+        | some sch =>
+          let r := Rep.run sc es sch
+          let body := " ".intercalate (r.out.map fun o =>
+            s!"{o.thread}:{o.aid.station}:{o.aid.seq}:{o.pos.lat}:{o.pos.lon}:{o.centre.lat}:{o.centre.lon}")
+          (s, s!"{if Rep.finished es r then "fin" else "unfinished"} n={r.out.length} {body}")
+        | none => (s, "bad-op")
+      | none => (s, "bad-op")
+    | _, _ => (s, "bad-op")
   | "eventf" :: variant :: start :: sub :: i :: T :: lat :: lon :: fs =>
     match nat? start, nat? sub, int? i, int? T, int? lat, int? lon, fs.mapM fault? with
     | some start, some sub, some i, some T, some lat, some lon, some fl =>
